@@ -197,6 +197,9 @@ func init() {
 		ID: "C14",
 		Harnesses: []HarnessSpec{
 			{Dir: "gcs", Name: "ZZ_C14_fastreduction", Reach: []string{"end"}, Tweak: func(c *sym.HarnessCfg, tier string) { c.UFMul = true }},
+			// only when the abstracted query has a model: the same query with exact 64-bit multiplication
+			// (cannot be proved unsat in reasonable time, but a wrong routine has abundant witnesses)
+			{Dir: "gcs", Name: "ZZ_C14_fastreduction", Variant: "exact-witness", AfterSat: "ZZ_C14_fastreduction", Tweak: func(c *sym.HarnessCfg, tier string) { c.TimeoutMs = 120000 }},
 			{Dir: "gcs", Name: "ZZ_C14_encoding", Variant: "n<=2", Reach: []string{"end"}, Tweak: gcsCfg("maxn", 2)},
 			{Dir: "gcs", Name: "ZZ_C14_serialise", Variant: "bytes<=3", Reach: []string{"end", "rejected"}, Tweak: params(false, "maxbytes", 3)},
 			{Dir: "gcs", Name: "ZZ_C14_encoding", Variant: "n<=3,allP", Tiers: "thorough", Reach: []string{"end"}, Tweak: gcsCfg("maxn", 3, "allp", 1)},
@@ -292,6 +295,8 @@ func init() {
 		c.Stubs = map[string]string{
 			"(*encoding/base64.Encoding).DecodeString":                "zzStubB64Decode",
 			"encoding/hex.DecodeString":                               "zzStubHexDecode",
+			"(*encoding/base64.Encoding).EncodeToString":              "zzStubB64Encode",
+			"encoding/hex.EncodeToString":                             "zzStubHexEncode",
 			"github.com/gcash/bchd/chaincfg/chainhash.NewHashFromStr": "zzStubNewHashFromStr",
 		}
 	}
@@ -304,7 +309,8 @@ func init() {
 			{Dir: "bloom", Name: "ZZ_C08_filterload", Reach: []string{"in", "end"}, Tweak: chain(bloomStubs("maxk", 2, "maxop", 4, "maxpushes", 1, "maxpushlen", 1), c08(0))},
 			{Dir: "gcs", Name: "ZZ_C08_frombytes", Variant: "bytes<=1", Reach: []string{"built", "end"}, Tweak: chain(gcsCfg("maxbytes", 1), c08(4096))},
 			{Dir: "gcs", Name: "ZZ_C08_fromnbytes", Variant: "bytes<=2", Tiers: "thorough", Reach: []string{"built", "rejected"}, Tweak: chain(gcsCfg("maxbytes", 2), c08(4096))},
-			{Dir: "jsonpb", Name: "ZZ_C08_convert", Variant: "depth2,width2", Reach: []string{"in", "end"}, Tweak: chain(jsonStubs, c08(0, "depth", 2, "width", 2))},
+			{Dir: "jsonpb", Name: "ZZ_C08_convert", Variant: "depth1,width2", Reach: []string{"in", "end"}, Tweak: chain(jsonStubs, c08(0, "depth", 1, "width", 2))},
+			{Dir: "jsonpb", Name: "ZZ_C08_convert", Variant: "depth2,width2", Tiers: "thorough", Reach: []string{"in", "end"}, Tweak: chain(jsonStubs, c08(0, "depth", 2, "width", 2))},
 		},
 	})
 	b58Stubs := func(kv ...interface{}) func(c *sym.HarnessCfg, tier string) {
@@ -396,7 +402,7 @@ func init() {
 		"an allocation sized by a symbolic count must not exceed 4096 elements for inputs of <= 6 bytes (gcs harnesses); other allocations have concrete sizes per path",
 		"termination: every loop carries an unwinding bound (4096); exceeding it on a feasible path is reported",
 	}, []string{"inputs longer than the tier bounds", "time complexity beyond 'no path exceeds the unwinding bound'"},
-		"cashaddr: 1..3 letter prefixes x 0..9 symbols; DecodeAddress on arbitrary ASCII strings <=4 bytes and prefix+<=9 symbols x 6 nets; filter-load 0..36000 bytes x HashFuncs {0,1,2,50}; gcs <=3 / <=6 bytes, arbitrary N,P,M; JSON trees depth 2 width 2", "larger strings")
+		"cashaddr: 1..3 letter prefixes x 0..9 symbols; DecodeAddress on arbitrary ASCII strings <=4 bytes and prefix+<=9 symbols x 6 nets; filter-load 0..36000 bytes x HashFuncs {0,1,2,50}; gcs <=3 / <=6 bytes, arbitrary N,P,M; JSON trees depth 1 width 2 (thorough: depth 2)", "larger strings; raw address strings just above the length pre-check; N-prefixed gcs filters")
 	meta("C15", []string{"crypto idealised and Base58 stubbed as in C04", "histories: one derivation (Child / Neuter / String+parse) followed by one of Zero(derived), Zero(original), SetNet, Child"},
 		[]string{"longer histories; NewExtendedKey with caller-owned buffers (documented custom API)"},
 		"two-step histories over {Child,Neuter,parse} x {Zero,Zero,SetNet,Child}, private and public, cached and uncached public key", "same plus a second derivation after Child")
